@@ -226,14 +226,17 @@ class Project:
         self.inlined = inline.Inliner(
             self, None if hp is True else list(hp)).run().sites
       fns = [f for f in self.funcs.values() if not f.is_lambda]
+      k_t = 0
+      if expand.get('temps'):
+        k_t = sum(normalise.eliminate_temps(f.node) for f in fns)
       if expand.get('loops'):
         k = sum(normalise.loops_to_comprehensions(f.node) for f in fns)
         if k:
           self.inlined.append(f'{k} accumulator loop(s) as comprehensions')
-      if expand.get('temps'):
-        k = sum(normalise.eliminate_temps(f.node) for f in fns)
-        if k:
-          self.inlined.append(f'{k} single-assignment local(s) substituted')
+          if expand.get('temps'):
+            k_t += sum(normalise.eliminate_temps(f.node) for f in fns)
+      if k_t:
+        self.inlined.append(f'{k_t} single-assignment local(s) substituted')
 
   # ---------------------------------------------------------------- loading
   def _load(self):
@@ -536,6 +539,9 @@ class Project:
     anchor.  Imported aliases are followed first.
     """
     modq, _, name = q.rpartition('.')
+    outer = self.funcs.get(modq)
+    if outer is not None and not outer.is_lambda:
+      return self.nested_of(outer, name)
     mod = self.modules.get(modq)
     if mod is not None:
       # `from other import name` / `name = other.name` in the old module
@@ -562,6 +568,30 @@ class Project:
         continue  # methods / nested functions do not stand in for module ones
       cands.append(f)
     return cands[0] if len(cands) == 1 else None
+
+  def nested_of(self, outer: FuncInfo, name: str) -> Optional[FuncInfo]:
+    """The function nested in `outer` that plays the part `name` played: the
+    one of that name; else the only nested function; else the only nested
+    function that `outer` hands to a call as an argument (a callback) or
+    returns.  A local function's name is not part of any interface."""
+    if name in outer.nested:
+      return outer.nested[name]
+    cands = list(outer.nested.values())
+    if len(cands) == 1:
+      return cands[0]
+    passed = []
+    for n in ast.walk(outer.node):
+      if isinstance(n, ast.Call):
+        for a in list(n.args) + [k.value for k in n.keywords]:
+          if isinstance(a, ast.Name) and a.id in outer.nested:
+            passed.append(a.id)
+      elif isinstance(n, ast.Return) and isinstance(
+          n.value, ast.Name) and n.value.id in outer.nested:
+        passed.append(n.value.id)
+    passed = sorted(set(passed))
+    if len(passed) == 1:
+      return outer.nested[passed[0]]
+    return None
 
   def cls(self, q: str) -> ClassInfo:
     c = self.classes.get(q)
